@@ -214,6 +214,46 @@ def explore_c15(rng, tier, res, deep=False):
         carry = (q, doc, kept) if kept else None
         res.sample({"query": q})
     fresh_env_invalid(rng, tier, res, g)
+    overlapping_applications(rng, tier, res)
+
+
+def overlapping_applications(rng, tier, res):
+    """find() equals the list of finditer() — also when the iterator is not drained in one go: two finditer() of ONE
+    compiled query (and of one environment) on two values, consumed alternately, each compared with find() on its value."""
+    import jsonpath_rfc9535 as jp
+
+    env = jp.JSONPathEnvironment()
+    pairs = [("$.items[?@ == $.want]", {"want": 1, "items": [1, 2, 1, 2, 1]}, {"want": 2, "items": [1, 2, 1, 2, 1]}),
+             ("$[?@ == $[0]]", [1, 2, 1, 3], [3, 2, 1, 3]), ("$..[?@.a == $.b]", {"b": 1, "x": [{"a": 1}, {"a": 2}]}, {"b": 2, "x": [{"a": 1}, {"a": 2}]}),
+             ("$.k[?@ < $.lim]", {"lim": 2, "k": [1, 2, 3]}, {"lim": 4, "k": [1, 2, 3]}), ("$[?count($[*]) > 2]", [1, 2], [1, 2, 3]),
+             ("$..*", {"a": {"b": 1}}, [[1], 2]), ("$[?@[?@ == $[0][0]]]", [[1, 2], [2, 1]], [[2, 1], [1, 2]]), ("$.*[?$.f]", {"f": 1, "a": [1, 2]}, {"a": [1, 2]}),
+             ("$[?length(@) == length($[0])]", ["ab", "c", "de"], ["c", "ab", "d"]), ("$[?@.v == $[-1].v]", [{"v": 1}, {"v": 2}], [{"v": 2}, {"v": 1}, {"v": 2}])]
+    for q, da, db in pairs:
+        for via in ("query", "env"):
+            res.evaluations += 1
+            c = env.compile(q)
+            ia = iter(c.finditer(da)) if via == "query" else iter(env.finditer(q, da))
+            ib = iter(c.finditer(db)) if via == "query" else iter(env.finditer(q, db))
+            ga, gb = [], []
+            la = lb = True
+            try:
+                while la or lb:
+                    if la:
+                        n = next(ia, None)
+                        la = n is not None
+                        if la:
+                            ga.append(wire.enc_node(n.location, n.value))
+                    if lb:
+                        n = next(ib, None)
+                        lb = n is not None
+                        if lb:
+                            gb.append(wire.enc_node(n.location, n.value))
+            except jp.JSONPathError as exc:
+                ga.append("err " + type(exc).__name__)
+            wa, wb = enc_list(env.find(q, da)), enc_list(c.find(db))
+            if " ".join(ga) != wa or " ".join(gb) != wb:
+                res.violations.append({"property": "C15", "query": q, "document": [da, db], "observed": [" ".join(ga)[:200], " ".join(gb)[:200]], "expected": [wa[:200], wb[:200]],
+                                       "what": f"finditer() of one compiled query ({via}) consumed alternately on two values does not give the list find() gives on each"})
 
 
 ALMOST_VALID = ["$[?@.a == (@.b)]", "$[?(@.a) == 1]", "$[?(@.a) < (@.b)]", "$[?1 == (@.a)]", "$[?@.a == 1 && (@.b) != 2]", "$[?!@.a == 1]", "$[?@.a == !@.b]",
@@ -360,8 +400,19 @@ def explore_c14(rng, tier, res, deep=False):
                                     # same operators: the verdict on a text does not depend on what was compiled before
                                     "$[?@.a == (@.b)]", "$[?(@.a) == 1]", "$[?(@.a) < (@.b)]", "$[?1 == (@.a)]", "$[?@.a == 1 && (@.b) != 2]",
                                     "$[?!@.a == 1]", "$[?@.a == !@.b]", "$[?@.a >= (1)]", "$[?(@.a || @.b) == true]", "$[?@.a == 1 == 1]",
-                                    "$[?@.a < @.b && @.b >= 2]", "$[?(@.a || @.b) && !(@.a == 2)]", "$[?@.a != 1 || @.b <= 2 || @.a > 0]"])
+                                    "$[?@.a < @.b && @.b >= 2]", "$[?(@.a || @.b) && !(@.a == 2)]", "$[?@.a != 1 || @.b <= 2 || @.a > 0]",
+                                    # well-typed and ill-typed calls of the SAME function with arguments of the same broad kind
+                                    "$[?count(@.a) > 0]", "$[?count('ab') == 2]", "$[?count(1) == 1]", "$[?value(@.a) == 1]", "$[?value(length(@.a)) == 1]",
+                                    "$[?length(@.a) == 1]", "$[?length(@.*) == 1]", "$[?length(count(@.*)) == 1]", "$[?count(length(@.a)) == 1]", "$[?length(1) == 1]",
+                                    "$[?count(@.*) == 1]", "$[?count(@..a) > count(@.a)]", "$[?value(1) == 1]", "$[?length(@.a == 1) == 1]", "$[?count($.a) >= 0]"])
                 r = outcome(lambda: envs[ei].compile(q))
+                # history irrelevance of compile() itself, on the real code: a fresh environment with the same registry
+                r_fresh = outcome(lambda: real.make_env(descs[ei]).compile(q))
+                if isinstance(r, str) != isinstance(r_fresh, str) or (isinstance(r, str) and r != r_fresh):
+                    res.violations.append({"property": "C14", "query": q, "env": descs[ei],
+                                           "observed": r if isinstance(r, str) else "compiled", "expected": r_fresh if isinstance(r_fresh, str) else "compiled",
+                                           "history": [str(h)[:120] for h in hist[-12:]],
+                                           "what": "whether a text compiles (and with which error) depends on what the environment compiled before: a fresh environment with the same registry decides otherwise"})
                 if isinstance(r, str):
                     outs_real.append("raised " + r[4:])
                 else:
@@ -432,6 +483,10 @@ def explore_c14(rng, tier, res, deep=False):
                     return enc_list(c.find(json.loads(t)))
                 except jp.JSONPathError as e:
                     return "err " + type(e).__name__
+                except RecursionError:
+                    raise
+                except Exception as e:  # noqa: BLE001
+                    return "err PY:" + type(e).__name__
 
             got = [once(t) for t in order]
             fresh = real.make_env(descs[ei])
@@ -471,6 +526,10 @@ def explore_c14(rng, tier, res, deep=False):
                 got_ab = (" ".join(ga), " ".join(gb))
             except jp.JSONPathError as e:
                 got_ab = ("err " + type(e).__name__,) * 2
+            except RecursionError:
+                raise
+            except Exception as e:  # noqa: BLE001
+                got_ab = ("err PY:" + type(e).__name__,) * 2
             wa = outcome(lambda: enc_list(fresh.find(q, json.loads(json.dumps(da)))))
             wb = outcome(lambda: enc_list(fresh.find(q, json.loads(json.dumps(db)))))
             if not wa.startswith("err ") and not wb.startswith("err ") and got_ab != (wa, wb):
@@ -497,6 +556,7 @@ def explore_c14(rng, tier, res, deep=False):
         res.sample({"history": [str(h)[:80] for h in hist[:8]]})
         pending.append(("hist\t(ops " + " ".join(ops_wire) + ")", outs_real, hist))
     subclass_alongside(rng, tier, res)
+    typed_call_twins(rng, tier, res)
     try:
         reps = model.run_batch_parallel([p[0] for p in pending])
     except model.ModelError as err:
@@ -510,6 +570,53 @@ def explore_c14(rng, tier, res, deep=False):
             idx = next((i for i in range(min(len(a), len(b))) if a[i] != b[i]), min(len(a), len(b)))
             res.mismatches.append({"op": "hist", "step": idx, "history": [str(h)[:120] for h in hist[: idx + 1]][-6:],
                                    "model": a[idx][:200] if idx < len(a) else None, "real": b[idx][:200] if idx < len(b) else None})
+
+
+def typed_call_twins(rng, tier, res):
+    """Whether a text compiles does not depend on what the environment compiled before: well-typed and ill-typed calls of
+    the SAME function (arguments of the same broad kind: literal / singular query / ValueType call; query / NodesType
+    call; test) compiled on one environment in both orders, and after the function was registered again with another
+    signature; each verdict compared with a fresh environment that has the registry of that moment."""
+    import jsonpath_rfc9535 as jp
+
+    desc = dict(real.DEFAULT_ENVDESC, fns=gen.PROBE_FNS)
+    groups = [["$[?count(@.a) > 0]", "$[?count('ab') == 2]", "$[?count(1) == 1]", "$[?count(length(@.a)) == 1]", "$[?count(@.*) > 0]", "$[?count(nf(@.*)) > 0]", "$[?count(@.a == 1) > 0]"],
+              ["$[?value(@.a) == 1]", "$[?value(length(@.a)) == 1]", "$[?value(1) == 1]", "$[?value(@..a) == 1]"],
+              ["$[?length(@.a) == 1]", "$[?length(@.*) == 1]", "$[?length(count(@.*)) == 1]", "$[?length(1) == 1]", "$[?length(nf(@.*)) == 1]", "$[?length(@.a == 1) == 1]", "$[?length(lf(@.a)) == 1]"],
+              ["$[?lf(@.a)]", "$[?lf(1)]", "$[?lf(length(@))]", "$[?lf(@.a == 1)]", "$[?lf(vf(@.a))]", "$[?lf(nf(@.*))]"],
+              ["$[?nf(@.a)]", "$[?nf(1)]", "$[?nf(@.*)]", "$[?nf(length(@.a))]", "$[?nf(@.a == 1)]"],
+              ["$[?vf(@.a) == 1]", "$[?vf(@.*) == 1]", "$[?vf(1) == 1]", "$[?vf(lf(@.a)) == 1]", "$[?vf(count(@.*)) == 1]"],
+              ["$[?match(@.a, 'x')]", "$[?match(@.*, 'x')]", "$[?match(@.a, @.*)]", "$[?match(1, 2)]", "$[?match(@.a == 1, 'x')]"]]
+    groups[-1:] = []  # match/search are not in the probe registry
+    for grp in groups:
+        for order in (grp, grp[::-1], grp[1:] + grp[:1]):
+            env = real.make_env(desc)
+            for q in order + order:
+                res.evaluations += 1
+                got = outcome(lambda: env.compile(q))
+                want = outcome(lambda: real.make_env(desc).compile(q))
+                g, w = (got if isinstance(got, str) else "compiled"), (want if isinstance(want, str) else "compiled")
+                if g != w:
+                    res.violations.append({"property": "C14", "query": q, "env": desc, "observed": g, "expected": w, "history": ["compiled before on this environment, in this order: "] + order,
+                                           "what": "whether a text compiles depends on what the environment compiled before"})
+                    break
+    # the same name registered again with another signature: texts compiled before must be judged by the registry of now
+    for (ats1, ret1), (ats2, ret2), q in [((["V"], "L"), (["N"], "L"), "$[?f(1)]"), ((["N"], "L"), (["V"], "L"), "$[?f(@.*)]"), ((["V"], "V"), (["V"], "L"), "$[?f(@.a) == 1]"),
+                                          ((["L"], "L"), (["V"], "L"), "$[?f(@.a == 1)]"), ((["V"], "L"), (["V", "V"], "L"), "$[?f(1)]")]:
+        env = real.make_env(desc)
+        env.function_extensions["f"] = real.make_probe(ats1, ret1, "const")
+        first = outcome(lambda: env.compile(q))
+        env.function_extensions["f"] = real.make_probe(ats2, ret2, "const")
+        res.evaluations += 1
+        got = outcome(lambda: env.compile(q))
+        fresh = real.make_env(desc)
+        fresh.function_extensions["f"] = real.make_probe(ats2, ret2, "const")
+        want = outcome(lambda: fresh.compile(q))
+        g, w = (got if isinstance(got, str) else "compiled"), (want if isinstance(want, str) else "compiled")
+        if g != w:
+            res.violations.append({"property": "C14", "query": q, "observed": g, "expected": w,
+                                   "history": [f"register f{tuple(ats1)}->{ret1}; compile the text ({first if isinstance(first, str) else 'compiled'}); register f again as {tuple(ats2)}->{ret2}; compile the text again"],
+                                   "what": "after a function was registered again with another signature, a text is still judged by the old one"})
 
 
 def subclass_alongside(rng, tier, res):
@@ -642,14 +749,39 @@ def explore_c16(rng, tier, res, deep=False):
             super().setup_function_extensions()
             self.function_extensions["length"] = real.make_probe(["V"], "V", "pick0")
             self.function_extensions["count"] = real.make_probe(["N"], "V", "const")
+            self.function_extensions["lf"] = real.make_probe(["L"], "L", "pick0")   # lf(x) = x
+            self.function_extensions["match"] = real.make_probe(["V", "V"], "L", "const")  # always true here
+
+    class Swapped3(jp.JSONPathEnvironment):
+        def setup_function_extensions(self):
+            super().setup_function_extensions()
+            self.function_extensions["lf"] = real.make_probe(["L"], "L", "const")   # lf(x) = true
 
     env_a, env_b, env_c = jp.JSONPathEnvironment(), Low(), Mid()
-    env_sw, env_sw2 = Swapped(), Swapped2()
+    env_sw, env_sw2, env_sw3 = Swapped(), Swapped2(), Swapped3()
     env_a_late = jp.JSONPathEnvironment()  # a stock environment constructed AFTER the ones with other registries
     reg_queries = ["$[?length(@) >= 2]", "$[?length(@) == 7]", "$..[?length(@.a) == 7]", "$[?length(@) == @]", "$[?count(@.*) == 7]", "$[?length(@) > 0 && count(@.*) >= 0]",
                    "$..[?length(@) == 1]"]
     reg_docs = [["é", "ab", "日本", "xyz", "q", "ü", "mn", 7, [1, 2], {"a": "abcdefg"}, [1, 2, 3, 4, 5, 6, 7]], {"k": "abcdefg", "l": [7, "7", "ab"], "m": {"a": [1]}}]
     round_no = -1
+    _b = [("length", ["V"], "V", "length"), ("count", ["N"], "V", "count"), ("value", ["N"], "V", "value")]
+    reg_desc = {
+        id(env_a): dict(real.DEFAULT_ENVDESC, fns=_b + [("match", ["V", "V"], "L", "match"), ("search", ["V", "V"], "L", "search")]),
+        id(env_a_late): dict(real.DEFAULT_ENVDESC, fns=_b + [("match", ["V", "V"], "L", "match"), ("search", ["V", "V"], "L", "search")]),
+        id(env_sw): dict(real.DEFAULT_ENVDESC, fns=[("length", ["V"], "V", "const")] + _b[1:] + [("match", ["V", "V"], "L", "match"), ("search", ["V", "V"], "L", "search")]),
+        id(env_sw2): dict(real.DEFAULT_ENVDESC, fns=[("length", ["V"], "V", "pick0"), ("count", ["N"], "V", "const"), _b[2], ("lf", ["L"], "L", "pick0"),
+                                                      ("match", ["V", "V"], "L", "const"), ("search", ["V", "V"], "L", "search")]),
+        id(env_sw3): dict(real.DEFAULT_ENVDESC, fns=_b + [("lf", ["L"], "L", "const"), ("match", ["V", "V"], "L", "match"), ("search", ["V", "V"], "L", "search")]),
+    }
+    lf_queries = ["$[?lf(@.a), ?lf(@.b)]", "$[?lf(@.a)]", "$[?lf(@.a) && !lf(@.zz), 0]", "$..[?lf(@.b), ?!lf(@.a)]"]
+    lf_doc = [{"a": 1, "s": "Ada"}, {"b": 1, "s": "adam"}, {"a": 0, "b": 0, "s": "Bob"}, {"s": "xb"}, {"zz": 1}]
+    _keys, _lines = [], []
+    for _e in (env_a, env_sw, env_sw2, env_a_late, env_sw3):
+        for _q in reg_queries + lf_queries:
+            for _d in reg_docs + [lf_doc]:
+                _keys.append((id(_e), _q, json.dumps(_d, sort_keys=True)))
+                _lines.append(f"rfc.query\t{real.enc_env(reg_desc[id(_e)])}\t{wire.enc_str(_q)}\t{wire.enc_json(_d)}")
+    reg_oracle = dict(zip(_keys, model.run_batch_parallel(_lines)))
     pool = ["$..*", "$[?@..*]", "$..[?@]", "$[?@[?@]]", "$.*", "$..a", "$[*][*]", "$[?@.a || @[0]]",
             # the query argument inside a filter: each iterator has its own `$`
             "$[?@ == $[0]]", "$[?@ != $[-1]]", "$.*[?@ == $.a]", "$[?$[1]]", "$[?@.a == $.a]", "$..[?@ == $.b]", "$[?count($[*]) > 2]", "$.a[?@ == $.b]"]
@@ -665,7 +797,7 @@ def explore_c16(rng, tier, res, deep=False):
         round_no += 1
         # "registry" rounds: environments that give the same function names other bodies, iterators of each alive at once
         # (the first rounds of every run, then now and then): a call is evaluated with the registry of ITS environment
-        reg_round = round_no < 6 or rng.random() < 0.1
+        reg_round = round_no < 12 or rng.random() < 0.1
         spine_round = (not reg_round) and rng.random() < 0.3
         if spine_round:
             spine_env = rng.choice([env_b, env_c])
@@ -699,6 +831,12 @@ def explore_c16(rng, tier, res, deep=False):
                 e = [env_a, env_sw, env_sw2, env_a_late][(i + round_no) % 4]
                 q = reg_queries[(round_no + (0 if round_no % 2 else i)) % len(reg_queries)]
                 d = reg_docs[(round_no // 2) % len(reg_docs)]
+                if round_no % 3 == 2:
+                    # the SAME text on environments that give a LogicalType function (or match) another body; filters that
+                    # are bare tests, several selectors in one segment
+                    e = [env_sw2, env_sw3][i % 2]
+                    q = lf_queries[(round_no // 3) % 4]
+                    d = lf_doc
             if twin_round:
                 e, q, d = env_a, shared_q, twin_docs[i % len(twin_docs)]
             if spine_round:
@@ -724,6 +862,12 @@ def explore_c16(rng, tier, res, deep=False):
                 s = drain(iter(ref_c.finditer(json.loads(json.dumps(d)))))
             except Exception:  # noqa: BLE001
                 s = drain(iter(c.finditer(d)))
+            if reg_round and id(c.env) in reg_desc and "match(" not in _q and "search(" not in _q:
+                # registry rounds: the reference is the ORACLE's nodelist for that environment's own registry (a fresh
+                # environment of the same class would share whatever the library keeps per query text or per class)
+                rep = reg_oracle.get((id(c.env), _q, json.dumps(d, sort_keys=True)), "none")
+                if rep.split("\t")[0] == "valid":
+                    s = (rep.split("\t", 1)[1] if "\t" in rep else "") + "|end"
             nodes, tail = s.rsplit("|", 1)
             seq = (nodes.split(" ") if nodes else []) + [tail]
             solo.append(seq[: (10 if spine_round else 4)])  # look at the first items + what follows
